@@ -172,11 +172,15 @@ theorem aux_absQ_sub_comm (a b : Rat) : absQ (a - b) = absQ (b - a) := by
   unfold absQ
   by_cases h1 : 0 ≤ a - b <;> by_cases h2 : 0 ≤ b - a <;> simp [h1, h2] <;> linarith
 
+theorem dbl1em6_pos : 0 < dbl1em6 := by unfold dbl1em6; decide +kernel
+theorem dbl1em6_le : dbl1em6 ≤ 1 / 1000000 := by unfold dbl1em6; decide +kernel
+
 theorem aux_seamTol_nonneg (a b : Grid) : 0 ≤ seamTol a b := by
   unfold seamTol minQ
-  have := aux_absQ_nonneg (a.y1 - a.y0)
-  have := aux_absQ_nonneg (b.y1 - b.y0)
-  split <;> positivity
+  have h1 := aux_absQ_nonneg (a.y1 - a.y0)
+  have h2 := aux_absQ_nonneg (b.y1 - b.y0)
+  have h3 := dbl1em6_pos.le
+  split <;> exact mul_nonneg h3 (by assumption)
 
 /-- **split ∘ concat = id**, in both member orders: cutting a well-formed area after row `k`
 (`0 < k < height`) and concatenating the two parts gives back the original extent and shape. -/
@@ -248,9 +252,15 @@ theorem split_concat_id {g : Grid} (hg : WF g) (k : Nat) (hk0 : 0 < k) (hk : k <
           have : g.y1 - (g.y1 - k * g.dy) = k * g.dy := by ring
           rw [this]; exact aux_absQ_of_nonneg (by positivity)
         rw [e]
+        have hp := dbl1em6_pos
+        have hl := dbl1em6_le
+        have hk' : 0 ≤ (k : Rat) * g.dy := by positivity
         split
-        · rename_i hle; nlinarith
-        · linarith
+        · rename_i hle
+          have hn := aux_absQ_nonneg (bot.g.y1 - bot.g.y0)
+          calc dbl1em6 * absQ (bot.g.y1 - bot.g.y0) ≤ dbl1em6 * (k * g.dy) := mul_le_mul_of_nonneg_left hle hp.le
+            _ ≤ 1 / 1000000 * (k * g.dy) := mul_le_mul_of_nonneg_right hl hk'
+        · exact mul_le_mul_of_nonneg_right hl hk'
       have h3 : (k : Rat) * g.dy < g.y1 - g.y0 := by rw [← hh]; nlinarith
       have h4 : 0 < (k : Rat) * g.dy := by positivity
       nlinarith
